@@ -255,29 +255,37 @@ theorem ql_agentEv {nat : List (Nat × Nat)} {h : Hist} {s : Sys} (ql : QL nat h
       have hpA := session_postA hsess
       rw [agentEv_a_false] at hpA
       obtain ⟨hp1, hp2, hp3, hp4⟩ := hpA
-      obtain ⟨hq, _, _⟩ := step_frame_ctl s.a ev q.invA hs1 hk hs5 hp3 hp4
-      obtain ⟨hn, hreq, _⟩ := step_tids s.a ev
-      rw [l.tids.tagA] at hreq
-      -- a valued transaction outstanding afterwards was outstanding before, or is the one just issued
+      obtain ⟨hn, hreq, hpendT⟩ := step_tids s.a ev
+      rw [l.tids.tagA] at hreq hpendT
+      have hseq := sq_step s.a ev
+      have hvl := step_valued_link s.a ev
+      have hadmTL : (∀ now la src m, ev ≠ .inbound now la src m) ∨
+          ∃ d, (TidOK s.a.nextTid d ∧ LinkOK s d) ∧ ev = evOf s d := by
+        rcases hadm with h1 | ⟨d, hd, he⟩
+        · exact Or.inl h1
+        · exact Or.inr ⟨d, ⟨hd.2.1, hd.2.2⟩, he⟩
+      -- a valued transaction outstanding afterwards was outstanding before, or is new: then its id is fresh, and the
+      -- request this step emits with that id carries its value (whoever issued it: `RenominateCandidate` or the
+      -- automatic check)
       have hpd : ∀ pd ∈ (step s.a ev).1.pending, ∀ v, pd.nom = some v →
-          pd ∈ s.a.pending ∨ (issueOf s.a ev = some (v, pd.src, pd.dest) ∧ pd.tid = 2 * s.a.nextTid) := by
+          pd ∈ s.a.pending ∨ ((∃ k, pd.tid = 2 * k ∧ s.a.nextTid ≤ k) ∧
+            ∀ f t m, Out.dgram f t m ∈ (step s.a ev).2 → m.cls = 0 → m.tid = pd.tid → m.nom = some v) := by
         intro pd hpd v hv
-        rcases hq.pend pd hpd with h1 | h1 | ⟨v', h1, h2⟩
+        rcases hvl pd hpd with h1 | h1 | ⟨m0, hm0, hc0, ht0, hn0⟩
         · exact Or.inl h1
         · rw [h1] at hv; cases hv
-        · rw [h1] at hv
-          cases hv
-          rcases (step_issue_tid s.a ev v pd.src pd.dest h2).2 pd hpd with h3 | h3
+        · rcases hpendT pd hpd with h3 | ⟨k, h3, h4, _⟩
           · exact Or.inl h3
-          · rw [l.tids.tagA] at h3
-            exact Or.inr ⟨h2, h3⟩
+          · refine Or.inr ⟨⟨k, by omega, h4⟩, fun f t m hm hc ht => ?_⟩
+            have := hseq.tid_inj hm hm0 hc hc0 (ht.trans ht0.symm)
+            rw [this, hn0]; exact hv
       intro d hd pd hpdm v hv m hm ht
       rw [agentEv_a_false] at hpdm
       rw [agentEv_b_false]
       rw [agentEv_inflight_false] at hd
       rcases List.mem_append.mp hd with hd | hd
       · -- the datagram was in flight before
-        rcases hpd pd hpdm v hv with hold | ⟨_, htid⟩
+        rcases hpd pd hpdm v hv with hold | ⟨⟨k0, hk0, hk1⟩, _⟩
         · exact l.link d hd pd hold v hv m hm ht
         · -- a new transaction has an id no datagram in flight carries
           refine ⟨fun hc => ?_, fun hc => ?_⟩
@@ -286,23 +294,22 @@ theorem ql_agentEv {nat : List (Nat × Nat)} {h : Hist} {s : Sys} (ql : QL nat h
       · -- the datagram is emitted by this step
         have hmem := mem_dgramsOf_stun hd hm
         refine ⟨fun hc => ?_, fun hc => ?_⟩
-        · rcases hpd pd hpdm v hv with hold | ⟨hiss, htid⟩
+        · rcases hpd pd hpdm v hv with hold | ⟨_, hlink⟩
           · obtain ⟨k, h1, h2, _⟩ := hreq _ _ m hmem hc
             obtain ⟨k', h3, h4⟩ := l.tids.pendTid pd hold
             omega
-          · obtain ⟨_, _, h3⟩ := (step_issue_tid s.a ev v pd.src pd.dest hiss).1 _ _ m hmem hc
-            have hpos : 0 < v := hz (v, pd.src, pd.dest) (by rw [hstepA_issued, hiss]; simp)
-            rw [if_pos hpos] at h3
+          · have h3 := hlink _ _ m hmem hc ht
             obtain ⟨⟨tb, hrole⟩, _⟩ := (IceProofs.C03.step_hsel s.a ev).out d.src d.dst m hmem hc
             rw [hp3] at hrole
             exact ⟨h3, tb, hrole⟩
         · -- A answers no request that carries its own role
-          obtain ⟨d', m', now, la, src, hd', hp', he, hc', ht', hrc, _⟩ := resp_of_request hadmL hmem hc
+          obtain ⟨d', m', now, la, src, hd', hp', he, hc', ht', hrc, _⟩ := resp_of_request hadmTL hmem hc
           have hold : pd ∈ s.a.pending := by
-            rcases hpd pd hpdm v hv with hold | ⟨hiss, _⟩
+            rcases hpd pd hpdm v hv with hold | ⟨⟨k0, hk0, hk1⟩, _⟩
             · exact hold
-            · rw [he] at hiss; cases hiss
-          obtain ⟨tb, hrole⟩ := ((hd' pd hold v hv m' hp' (ht'.trans ht)).1 hc').2
+            · -- the answered request was in flight before: its id is not a fresh one
+              rcases hd'.1 m' hp' (Or.inl hc') with ⟨k, h1, h2⟩ | ⟨k, h1⟩ <;> omega
+          obtain ⟨tb, hrole⟩ := ((hd'.2 pd hold v hv m' hp' (ht'.trans ht)).1 hc').2
           unfold roleConflict at hrc
           rw [hrole, hs5] at hrc
           simp at hrc
